@@ -19,6 +19,9 @@ THEOREMS = {
             "Cntgs.C11.iter_diff_add", "Cntgs.C11.iter_order", "Cntgs.C11.iter_trichotomy", "Cntgs.runs_ok"],
     "C12": ["Cntgs.C12.from_reference", "Cntgs.C12.copy_assign_fixed", "Cntgs.C12.copy_assign_varying", "Cntgs.C12.move_assign_value",
             "Cntgs.C12.swap_values", "Cntgs.C12.to_reference", "Cntgs.C12.independent"],
+    "C19": ["Cntgs.C19.copy_leaves_others", "Cntgs.C19.const_no_write", "Cntgs.C19.schedule_keeps_shared",
+            "Cntgs.C19.obs_depends_on_shared_only"],
+    "C20": ["Cntgs.C20.category_partition", "Cntgs.C20.ctor_dispatch", "Cntgs.C20.availability"],
     "C05": ["Cntgs.C05.fields_greedy", "Cntgs.C05.alignUp_is_lowest", "Cntgs.C05.elements_greedy", "Cntgs.C05.units_tight"],
 }
 
